@@ -45,10 +45,16 @@ def run(ctx):
     ctx.rule("R10.9", "an I/O failure marks the connection Closed (= C09 R09.7), otherwise it is never reaped")
     from .c09 import failure_closes
     ctx.guarded("R10.9", "failure-closes", lambda: failure_closes(ctx, "R10.9"))
-    ctx.rule("R10.8", "the in-flight counter returns to 0 once every yielded request is answered (C07 R07.6: += exactly what read() returns, -= 1 per response)")
+    ctx.rule("R10.8", "the in-flight counter returns to 0 once every yielded request is answered (C07 R07.6: += exactly what read() returns, -= 1 per response; C07 R07.1: everything counted is yielded, the yielded vector is only accumulated into)")
     from .c06 import _Remap
     from .c07 import counter
     ctx.guarded("R10.8", "counter", lambda: counter(_Remap(ctx, "R10.8")))
+    # a request that is counted but never handed to the application can never be answered: its connection is never released
+    from .c07 import ids
+    ctx.guarded("R10.8", "yielded", lambda: ids(_Remap(ctx, "R10.8")))
+    ctx.rule("R10.10", "descriptors received with a request that is then rejected do not stay open in the connection: every ParseError exit of try_read empties self.files (= C11 R11.1 for `files`)")
+    from . import c11
+    ctx.guarded("R10.10", "rejected-files", lambda: c11.reset(_Remap(ctx, "R10.10"), only_fields=("files",)))
 
 
 def cap(ctx):
